@@ -18,6 +18,9 @@ pub enum I {
 #[derive(Clone, Debug)]
 pub enum B {
     Para(Vec<I>),
+    /// a paragraph of a tight list item written directly under a code block or heading of the item (no blank
+    /// line before it): pulldown-cmark reports its text as bare inline events of the item
+    TightPara(Vec<I>),
     /// a paragraph consisting of exactly one link: a block reference
     Ref { text: Vec<I>, url: String, wiki: Option<Option<String>> },
     Heading { level: u8, text: Vec<I>, setext: bool },
@@ -207,9 +210,15 @@ impl<'a> DocGen<'a> {
                                     loose = true;
                                 }
                                 let before = it.len();
+                                let glue = matches!(b, B::Code { .. } | B::Heading { setext: false, .. });
                                 self.push_block(&mut it, b);
                                 if it.len() > before + 1 {
                                     loose = true;
+                                }
+                                if glue && self.r.chance(1, 3) {
+                                    let mut xs = vec![I::Word(self.word())];
+                                    xs.extend(self.inlines(0));
+                                    it.push(B::TightPara(xs));
                                 }
                             }
                             it
@@ -354,7 +363,7 @@ pub fn render(bs: &[B]) -> String {
 
 fn render_block(b: &B) -> String {
     match b {
-        B::Para(x) => format!("{}\n", inl(x)),
+        B::Para(x) | B::TightPara(x) => format!("{}\n", inl(x)),
         B::Ref { text, url, wiki } => match wiki {
             None => format!("[{}]({})\n", inl(text), url),
             Some(None) => format!("[[{}]]\n", url),
@@ -382,7 +391,7 @@ fn render_block(b: &B) -> String {
                 for (j, b) in it.iter().enumerate() {
                     // a blank line is needed between the blocks of an item, except that a list, a fenced
                     // code block, a quote or an ATX heading may directly follow the item's first paragraph
-                    if j > 0 && (*loose || j >= 2 || !matches!(b, B::List { .. } | B::Code { .. } | B::Quote(_) | B::Heading { .. })) {
+                    if j > 0 && (*loose || (j >= 2 && !matches!(b, B::TightPara(_))) || !matches!(b, B::List { .. } | B::Code { .. } | B::Quote(_) | B::Heading { .. } | B::TightPara(_))) {
                         body.push('\n');
                     }
                     body.push_str(&render_block(b));
